@@ -130,6 +130,22 @@ def AGG(tag, seq, sset):
   return uf('AGG', [tag, seq.sid, sset], ArrSort)
 
 
+LEN_ARR = z3.Function('len_Arr', ArrSort, I)
+WIDTH = z3.Function('WIDTH', sort_named('PanelData'), I)
+
+
+def _agg_len_axiom(ctx):
+  tag = z3.Const('tag!ax', sort_named('PanelData'))
+  sid = z3.Int('sid!ax')
+  st = z3.Const('S!ax', z3.SetSort(I))
+  agg = z3.Function('AGG', sort_named('PanelData'), I, z3.SetSort(I), ArrSort)
+  return z3.ForAll([tag, sid, st], LEN_ARR(agg(tag, sid, st)) == WIDTH(tag))
+
+
+spec.axioms.append(('numpy: the column sums of a 2-d array have one entry per '
+                    'column (date of the panel)', _agg_len_axiom))
+
+
 def SH(seq, sset):
   """Sum of the shares of the geos labelled seq[i], i in S."""
   return uf('SH', [seq.sid, sset], z3.RealSort())
@@ -146,9 +162,13 @@ spec.contract(
         ('indices are positions of the geo index', lambda s: z3.IsSubset(
             S(s.geo_indices), idx_range(unwrap(s.self._array).val.labels))),
     ],
-    ensures=[('sum of the selected rows', lambda s: unwrap(s.result).t == AGG(
-        unwrap(s.self._array).val.tag, unwrap(s.self._array).val.labels,
-        S(s.geo_indices)))])
+    ensures=[
+        ('sum of the selected rows', lambda s: unwrap(s.result).t == AGG(
+            unwrap(s.self._array).val.tag, unwrap(s.self._array).val.labels,
+            S(s.geo_indices))),
+        ('one entry per date of the panel', lambda s: LEN_ARR(
+            unwrap(s.result).t) == WIDTH(unwrap(s.self._array).val.tag)),
+    ])
 
 spec.contract(
     'TBRMMData.aggregate_geo_share',
